@@ -36,6 +36,8 @@ ColifiltOK == cfg.kind = "colifilt" =>
                   /\ SamePair(ImplColifilt(cfg.r, cfg.L, cfg.hp), RefColifilt(cfg.r, cfg.L, Pol(cfg.hp)))
                   /\ ImplColifilt(cfg.r, cfg.L, cfg.hp).a.no = 2 * cfg.r
 
+IfiltScalarOK == cfg.kind = "colifilt" => IfiltScalarForm(cfg.r, cfg.L, cfg.hp)
+
 \* C06: the backward passes are the transposes under the table identities
 AdjointOK ==
     /\ cfg.kind = "colfilter" => Level1SelfAdjoint(cfg.r, cfg.L)
